@@ -255,11 +255,7 @@ func (fc *fctx) callWith(c *FuncContract, key string, vars map[string]*Val, sig 
 	}
 	tr.callArgs = nil
 	for _, v := range vars {
-		if v.Sort == "Int" {
-			tr.callArgs = append(tr.callArgs, v.E())
-		} else if v.Sort == "Iface" {
-			tr.callArgs = append(tr.callArgs, ifPart(v, 1))
-		}
+		tr.callArgs = append(tr.callArgs, tr.pointersIn(v, 0)...)
 	}
 	pre := tr.cur.clone()
 	env := &Env{tr: tr, vars: vars, st: pre, old: pre}
@@ -389,6 +385,34 @@ func (fc *fctx) callWith(c *FuncContract, key string, vars map[string]*Val, sig 
 		tr.assume(fc.evalClause(env2, cl, key))
 	}
 	return res
+}
+
+// pointersIn: the pointers a value hands to a callee: the value itself, or - for a struct passed by value - the pointers,
+// slice backing arrays, maps and interface payloads in its fields
+func (tr *Translator) pointersIn(v *Val, depth int) []string {
+	switch v.Sort {
+	case "Int":
+		if v.T != nil {
+			switch v.T.Underlying().(type) {
+			case *types.Pointer, *types.Map, *types.Signature, *types.Chan:
+				return []string{v.E()}
+			case *types.Basic:
+				if b := v.T.Underlying().(*types.Basic); b.Kind() == types.UnsafePointer || b.Kind() == types.Uintptr {
+					return []string{v.E()}
+				}
+				return nil
+			}
+		}
+		return []string{v.E()}
+	case "Iface":
+		return []string{ifPart(v, 1)}
+	case "Slice":
+		return []string{slPart(v, 0)}
+	}
+	// a struct passed by value: when it is a protected local itself, the local is recorded in callLocalArgs by the call
+	// site (its holders are then handed over); otherwise it is a copy of a sub-value, from which - model values being
+	// trees - no holder of the caller's locals can be reached
+	return nil
 }
 
 func clauseProps(cl *Clause, def []string) []string {
